@@ -1,6 +1,7 @@
 import KyupyVerif.Model.Sdf
 import KyupyVerif.Model.SdfText
 import KyupyVerif.Model.WaveCirc
+import KyupyVerif.Model.Net
 /-! # The timing data path: from an SDF description to the delay table of a `WaveSim` run
 
 `WaveSim(circuit, delays = df.iopaths(circuit, tlib) + df.interconnects(circuit, tlib))` — the idiom of kyupy's own tests
@@ -28,6 +29,45 @@ def sdfCfg (pinLine : PinTable) (icLine : IcTable) (df : DelayFile) (d : Nat) (c
 /-- every number of the file is ≥ 0 (empty fields read 0) -/
 def rawNonneg (B : List RawCell) : Bool :=
   B.all fun c => c.delays.flatten.all fun x => x.vals.all fun t => t.all fun o => decide (0 ≤ o.getD 0)
+
+/-! ## the two tables read off the circuit
+
+`Model/Sdf.lean` abstracts the circuit to a pin table and a fork table. Here they are DEFINED from the canonical dump `Net`
+of the circuit (the object the `SimOps` model schedules), the node names (parallel to `net.nodes`) and the library's
+`pin_index`, following `iopaths` / `interconnects` line by line: `circuit.cells.get(name)` (cells = nodes that are no forks;
+names are unique among cells), `cell.ins[tlib.pin_index(cell.kind, pin)]`, and the search for the fork between two pins.
+`none` where the code warns and skips, and where it raises (unknown cell / pin, pin index beyond the pin list, a failing
+`assert`): outside the domain. -/
+
+/-- `tlib.pin_index(kind, pin)`; `none` = unknown cell kind or pin (the real function raises) -/
+abbrev PinIdx := String → String → Option Nat
+
+/-- `circuit.cells.get(name)`: index of the node of that name that is not a fork -/
+def findCell (net : Net) (names : Array String) (name : String) : Option Nat :=
+  (List.range net.nodes.size).find? fun i => !(net.node i).isFork && names.getD i "" == name
+
+/-- `iopaths`: `cell.ins[tlib.pin_index(cell.kind, i_pin_spec)]` -/
+def netPinLine (net : Net) (names : Array String) (pinIdx : PinIdx) : PinTable := fun cell pin =>
+  (findCell net names cell).bind fun i => (pinIdx (net.node i).kind pin).bind fun k => (net.node i).inPin k
+
+/-- `p = tlib.pin_index(c.kind, pn) if pn is not None else 0` -/
+def pinOr0 (pinIdx : PinIdx) (kind : String) : Option String → Option Nat
+  | some pn => pinIdx kind pn
+  | none => some 0
+
+/-- `interconnects`: the forks `f1` behind the driver pin and `f2` in front of the reader pin; when they differ `f2` must be a
+branch fork of `f1` (one output, fed by `f1`), when they coincide the fork must have no fan-out; the line is `f2.ins[0]` -/
+def netIcLine (net : Net) (names : Array String) (pinIdx : PinIdx) : IcTable := fun c1 p1 c2 p2 =>
+  (findCell net names c1).bind fun n1 => (findCell net names c2).bind fun n2 =>
+  (pinOr0 pinIdx (net.node n1).kind p1).bind fun k1 => (pinOr0 pinIdx (net.node n2).kind p2).bind fun k2 =>
+  (net.node n1).outPin k1 |>.bind fun lo => (net.node n2).inPin k2 |>.bind fun li =>
+  let f1 := (net.line lo).reader
+  let f2 := (net.line li).driver
+  if !((net.node f1).isFork && (net.node f2).isFork) then none else
+  ((net.node f2).inPin 0).bind fun l =>
+    if f1 != f2 then
+      (if (net.node f2).outs.length == 1 && (net.node f1).outPin (net.line l).dpin == some l then some l else none)
+    else if (net.node f2).outs.length == 1 then some l else none
 
 /-! ## from the text -/
 
